@@ -260,6 +260,9 @@ class ModelCfg:
     p_unused_inter: float = 0.25
     p_param_expr: float = 0.2
     chain: int = 0            # force a dependency chain of this length
+    p_prefix_names: float = 0.25   # a state/parameter name that extends another one (m / mL)
+    p_alias_deriv: float = 0.12    # a derivative that is a bare name (dx_dt = v)
+    p_ref_deriv: float = 0.15      # an assignment that mentions a derivative by name
     expr: ExprCfg = field(default_factory=ExprCfg)
     plain_names: bool = False
 
@@ -304,10 +307,27 @@ def gen_model(rng: random.Random, cfg: ModelCfg | None = None) -> GModel:
             return n
         return mk(p)
 
-    for _ in range(rng.randint(1, cfg.max_states)):
-        m.states[name("s")] = (gen_value(rng, cfg), rng.choice(comps))
-    for _ in range(rng.randint(1, cfg.max_params)):
-        m.params[name("p")] = (gen_value(rng, cfg), rng.choice(comps))
+    def related(base):
+        """a name that has `base` as a proper prefix (m / mL, x / xs, h / h2)"""
+        for suf in rng.sample(["L", "s", "2", "_inf", "x", "0"], 6):
+            n = base + suf
+            if n not in used and n not in RESERVED and not (n.startswith("d") and n.endswith("_dt")):
+                used.add(n)
+                return n
+        return name("s")
+
+    for k in range(rng.randint(1, cfg.max_states)):
+        if k > 0 and rng.random() < cfg.p_prefix_names:
+            n = related(rng.choice(list(m.states)))
+        else:
+            n = name("s")
+        m.states[n] = (gen_value(rng, cfg), rng.choice(comps))
+    for k in range(rng.randint(1, cfg.max_params)):
+        if rng.random() < cfg.p_prefix_names / 2:
+            n = related(rng.choice(list(m.states) + list(m.params)))
+        else:
+            n = name("p")
+        m.params[n] = (gen_value(rng, cfg), rng.choice(comps))
     avail = list(m.states) + list(m.params)
     n_int = max(rng.randint(0, cfg.max_inters), cfg.chain)
     inter_names = []
@@ -326,14 +346,27 @@ def gen_model(rng: random.Random, cfg: ModelCfg | None = None) -> GModel:
     if usable and rng.random() < cfg.p_unused_inter:
         # leave one intermediate (maybe the head of a chain) unmentioned by derivatives
         usable = usable[:-1]
+    dnames = []
     for s, (_, c) in m.states.items():
         pool = avail + usable
-        e = gen_expr(rng, pool, rng.randint(1, cfg.depth + 1), cfg.expr)
+        if rng.random() < cfg.p_alias_deriv and pool:
+            e = ("var", rng.choice(pool))
+        else:
+            e = gen_expr(rng, pool, rng.randint(1, cfg.depth + 1), cfg.expr)
+        if dnames and rng.random() < cfg.p_ref_deriv:
+            e = ("add", e, ("mul", ("var", rng.choice(dnames)), lit(rng)))
         if cfg.chain and usable:
             e = ("add", e, ("var", usable[-1]))
         d = m.deriv_of(s)
         m.assigns[d] = (e, c)
         m.order.append(d)
+        dnames.append(d)
+    if dnames and rng.random() < cfg.p_ref_deriv * 2:
+        # a monitored quantity computed from derivatives (e.g. a power or a flux balance)
+        n = name("i")
+        e = ("mul", ("var", rng.choice(dnames)), gen_expr(rng, avail + dnames, 1, cfg.expr))
+        m.assigns[n] = (e, rng.choice(comps))
+        m.order.append(n)
     return m
 
 
